@@ -159,8 +159,9 @@ static void reg_sym_family()
     // --- DenseSymShiftSolve
     g_inst.push_back({"DenseSymShiftSolve<" + c + ">", [](vf::Ctx& ctx, int n) {
         auto& r = ctx.rng;
-        const DMat<T> F = rand_herm<T>(r, n, 1.0, 0.0);
-        const T sigma = T(r.gauss());
+        DMat<T> F = rand_herm<T>(r, n, 1.0, 0.0);
+        T sigma = T(r.gauss());
+        ctx.count(std::string("shift_class/") + std::to_string(hostile_shift_class<T, T>(r, F, sigma, true)));
         const std::string inst = "DenseSymShiftSolve<" + cfg<Uplo, Flags>() + ">";
         MatCLD Fs = F.template cast<CLD>();
         Fs.diagonal().array() -= CLD((LD) sigma);
@@ -244,8 +245,9 @@ static void reg_sparse_sym_family(const char* siname)
     }});
     g_inst.push_back({"SparseSymShiftSolve<" + c + ">", [c](vf::Ctx& ctx, int n) {
         auto& r = ctx.rng;
-        const DMat<T> F = rand_herm<T>(r, n, 0.3, 0.0);
-        const T sigma = T(r.gauss());
+        DMat<T> F = rand_herm<T>(r, n, 0.3, 0.0);
+        T sigma = T(r.gauss());
+        ctx.count(std::string("shift_class/") + std::to_string(hostile_shift_class<T, T>(r, F, sigma, true)));
         const std::string inst = "SparseSymShiftSolve<" + c + ">";
         MatCLD Fs = F.template cast<CLD>();
         Fs.diagonal().array() -= CLD((LD) sigma);
@@ -345,8 +347,9 @@ static void reg_gen_family()
     }});
     g_inst.push_back({"DenseGenRealShiftSolve<" + c + ">", [c](vf::Ctx& ctx, int n) {
         auto& r = ctx.rng;
-        const DMat<T> F = rand_full<T>(r, n, 1.0);
-        const T sigma = T(r.gauss());
+        DMat<T> F = rand_full<T>(r, n, 1.0);
+        T sigma = T(r.gauss());
+        ctx.count(std::string("shift_class/") + std::to_string(hostile_shift_class<T, T>(r, F, sigma, false)));
         const std::string inst = "DenseGenRealShiftSolve<" + c + ">";
         MatCLD Fs = F.template cast<CLD>();
         Fs.diagonal().array() -= CLD((LD) sigma);
@@ -370,8 +373,10 @@ static void reg_gen_family()
     }});
     g_inst.push_back({"DenseGenComplexShiftSolve<" + c + ">", [c](vf::Ctx& ctx, int n) {
         auto& r = ctx.rng;
-        const DMat<T> F = rand_full<T>(r, n, 1.0);
-        const T sr = T(r.gauss()), si = T(0.3 + r.uni());
+        DMat<T> F = rand_full<T>(r, n, 1.0);
+        T sr = T(r.gauss());
+        const T si = T(0.3 + r.uni());
+        ctx.count(std::string("shift_class/") + std::to_string(hostile_shift_class<T, T>(r, F, sr, false)));
         const std::string inst = "DenseGenComplexShiftSolve<" + c + ">";
         MatCLD Fs = F.template cast<CLD>();
         Fs.diagonal().array() -= CLD((LD) sr, (LD) si);
@@ -415,7 +420,8 @@ static void reg_sparse_gen_family(const char* siname)
     g_inst.push_back({"SparseGenRealShiftSolve<" + c + ">", [c](vf::Ctx& ctx, int n) {
         auto& r = ctx.rng;
         DMat<T> F = rand_full<T>(r, n, 0.3);
-        const T sigma = T(r.gauss());
+        T sigma = T(r.gauss());
+        ctx.count(std::string("shift_class/") + std::to_string(hostile_shift_class<T, T>(r, F, sigma, false)));
         const std::string inst = "SparseGenRealShiftSolve<" + c + ">";
         MatCLD Fs = F.template cast<CLD>();
         Fs.diagonal().array() -= CLD((LD) sigma);
@@ -439,8 +445,10 @@ static void reg_sparse_gen_family(const char* siname)
     }});
     g_inst.push_back({"SparseGenComplexShiftSolve<" + c + ">", [c](vf::Ctx& ctx, int n) {
         auto& r = ctx.rng;
-        const DMat<T> F = rand_full<T>(r, n, 0.3);
-        const T sr = T(r.gauss()), si = T(0.3 + r.uni());
+        DMat<T> F = rand_full<T>(r, n, 0.3);
+        T sr = T(r.gauss());
+        const T si = T(0.3 + r.uni());
+        ctx.count(std::string("shift_class/") + std::to_string(hostile_shift_class<T, T>(r, F, sr, false)));
         const std::string inst = "SparseGenComplexShiftSolve<" + c + ">";
         MatCLD Fs = F.template cast<CLD>();
         Fs.diagonal().array() -= CLD((LD) sr, (LD) si);
